@@ -12,7 +12,7 @@ KINDS = ['word', 'word', 'worddup', 'worddel', 'word', 'addonly', 'perm', 'word'
 
 
 def run(ctx):
-    return mc.generic_run(ctx, 'C02', KINDS, n_quick=12, n_thorough=400)
+    return mc.generic_run(ctx, 'C02', KINDS, n_quick=40, n_thorough=400)
 
 
 def replay(ctx, payload):
